@@ -377,6 +377,15 @@ def d3_flag(ctx):
     ctx.floor('functions rebuilding Obs from samples', n, 2)
 
 
+def d4_samples(ctx):
+    from .. import samplerule
+    obs = ctx.repo.mod('obs')
+    n = samplerule.check(ctx, 'C05-D4', obs, ('reweight', 'correlate', 'merge_obs'))
+    cm = ctx.repo.mod('correlators')
+    n += samplerule.check(ctx, 'C05-D4', cm)
+    ctx.floor('sample reconstructions (delta + replica mean)', n, 5)
+
+
 def run(ctx):
     ctx.rule('C05-D1', 'pairing by configuration number (index-space tags, dominating equality guards)')
     ctx.rule('C05-D2', 'misaligned requests raise')
@@ -385,6 +394,8 @@ def run(ctx):
     ctx.guarded('C05-D1', 'obs.py@pairing', d1_pairing, ctx)
     ctx.guarded('C05-D2', 'obs.py@guards', d2_guards, ctx)
     ctx.guarded('C05-D3', 'package@flag', d3_flag, ctx)
+    ctx.rule('C05-D4', 'samples are fluctuation + replica mean of the same object and chain')
+    ctx.guarded('C05-D4', 'obs.py@samples', d4_samples, ctx)
 
 
 SELFTEST = [
@@ -404,5 +415,6 @@ SELFTEST = [
     ('reduce-fastpath-weakened', 'pyerrors/obs.py', "    if _check_lists_equal([idx_old, idx_new]):\n        return deltas", "    if len(idx_old) == len(idx_new):\n        return deltas", 'C05-D1'),
     ('all-configs-inverted', 'pyerrors/obs.py', "        if kwargs.get('all_configs'):\n            new_weight = weight", "        if not kwargs.get('all_configs'):\n            new_weight = weight", 'C05-D1'),
     ('reduce-cached-across-obs', 'pyerrors/obs.py', "            w_deltas[name] = _reduce_deltas(weight.deltas[name], weight.idl[name], obs[i].idl[name])", "            if name not in w_deltas or len(w_deltas[name]) != obs[i].shape[name]:\n                w_deltas[name] = _reduce_deltas(weight.deltas[name], weight.idl[name], obs[i].idl[name])", 'C05-D1'),
+    ('correlate-global-mean', 'pyerrors/obs.py', "new_samples.append((obs_a.deltas[name] + obs_a.r_values[name]) * (obs_b.deltas[name] + obs_b.r_values[name]))", "new_samples.append((obs_a.deltas[name] + obs_a.r_values[name]) * (obs_b.deltas[name] + obs_b.value))", 'C05-D4'),
     ('benign-flag-any', 'pyerrors/obs.py', "reweighted = len(list(filter(lambda o: o.reweighted is True, raveled_data))) > 0", "reweighted = any(o.reweighted is True for o in raveled_data)", 'BENIGN'),
 ]
